@@ -44,6 +44,8 @@ fn shadow(cfg: &LCfg) -> GenShadow {
         uniq: 0,
         known: true,
         count: 0,
+        abs: 4096,
+        file_len: 1024 * 1024,
     }
 }
 
@@ -57,13 +59,7 @@ fn gen_append(rng: &mut Rng, sh: &mut GenShadow, hits: &mut u64) -> LStep {
         sh.uniq += 1;
         let kind = if rng.chance(0.5) { 1 } else { 2 };
         let fs = frame_size(sh.next, sh.term, &mk_payload(sh.uniq, 0, kind));
-        sh.since_idx += fs;
-        sh.cnt += 1;
-        if sh.cnt % sh.interval == 0 {
-            sh.since_idx = 0;
-        }
-        sh.next += 1;
-        sh.count += 1;
+        sh.account(fs);
         return LStep::Append { pad: 0, kind, term_up };
     }
     let pad = gen_pad(rng, sh, hits);
@@ -94,9 +90,24 @@ impl Check for C02 {
         let n = rng.range(5, hi);
         let mut steps = vec![];
         let long_fill = cfg.area != 0 || rng.chance(0.15);
+        let mut file_end_done = false;
         for _ in 0..n {
             let r = rng.below(100);
-            let st = if r < 38 {
+            let st = if r < 4 && cfg.area == 0 && !file_end_done {
+                // a record ending exactly at the pre-allocated end of the log file, then (usually) a reopen
+                match gen_pad_to_file_end(&mut rng, &mut sh) {
+                    Some(pad) => {
+                        file_end_done = true;
+                        steps.push(LStep::Append { pad, kind: 0, term_up: false });
+                        if rng.chance(0.7) {
+                            LStep::Reopen
+                        } else {
+                            LStep::Advance { ms: 1 }
+                        }
+                    }
+                    None => gen_append(&mut rng, &mut sh, &mut hits),
+                }
+            } else if r < 38 {
                 gen_append(&mut rng, &mut sh, &mut hits)
             } else if r < 58 {
                 gen_replicate(&mut rng, &mut sh, &mut hits, if long_fill { 40 } else { 20 })
@@ -371,6 +382,63 @@ impl Check for C05 {
     }
     fn execute(&self, script: Value) -> LocalFut<ExecResult> {
         Box::pin(exec_lscript("C05", script))
+    }
+    fn shrink_step(&self, step: &Value) -> Vec<Value> {
+        shrink_lstep(step)
+    }
+    fn shrink_cfg(&self, cfg: &Value) -> Vec<Value> {
+        shrink_lcfg(cfg)
+    }
+}
+
+// ---------------------------------------------------------------------------
+// C04: crash-consistency at every file-write boundary (exhaustive over the crash prefixes of each sampled history)
+
+pub struct C04;
+impl Check for C04 {
+    fn id(&self) -> &'static str {
+        "C04"
+    }
+    fn generate(&self, seed: u64, tier: Tier) -> Value {
+        let mut rng = Rng::derive(seed, "C04.gen", 0);
+        let mut cfg = swarm_cfg(&mut rng, tier, false, false);
+        cfg.p_yield = 0.0;
+        let mut sh = shadow(&cfg);
+        let mut hits = 0u64;
+        let n = rng.range(3, 14);
+        let mut steps = vec![];
+        for _ in 0..n {
+            let r = rng.below(100);
+            let st = if r < 25 {
+                gen_append(&mut rng, &mut sh, &mut hits)
+            } else if r < 45 {
+                gen_replicate(&mut rng, &mut sh, &mut hits, 10)
+            } else if r < 55 {
+                sh.known = false;
+                LStep::DeleteFrom { back: rng.range(1, 6) }
+            } else if r < 63 {
+                LStep::HardState { term_up: rng.range(0, 2), vote: rng.range(0, 5) }
+            } else if r < 68 {
+                let k = rng.range(1, 4);
+                LStep::Member { members: (1..=k).collect(), after: vec![], addr_len: rng.range(1, 40) as usize }
+            } else if r < 76 {
+                LStep::Compact { back: rng.range(0, 4) }
+            } else if r < 80 {
+                LStep::InstallPointer { rel: rng.range(0, 8) as i64 - 5 }
+            } else if r < 86 {
+                LStep::SaveApplied { back: rng.range(0, 3) }
+            } else if r < 92 {
+                LStep::Advance { ms: 600 }
+            } else {
+                LStep::Reopen
+            };
+            steps.push(st);
+        }
+        let max_images = if tier == Tier::Thorough { 400 } else { 120 };
+        json!({"check": "C04", "seed": seed, "cfg": cfg, "steps": steps, "max_images": max_images})
+    }
+    fn execute(&self, script: Value) -> LocalFut<ExecResult> {
+        Box::pin(exec_c04(script))
     }
     fn shrink_step(&self, step: &Value) -> Vec<Value> {
         shrink_lstep(step)
